@@ -1540,6 +1540,8 @@ func checkEquality(v1, v2 reflect.Value) bool {
 }
 
 func isTrue(v reflect.Value) bool {
+	// an interface value is as true as the value it holds (IsZero only tells whether it is nil)
+	v = indirectInterface(v)
 	return v.IsValid() && !v.IsZero()
 }
 
